@@ -6,5 +6,9 @@ CONSTANTS
   MAXOUT = 2
   FAST = TRUE
   STRICT = FALSE
-INVARIANT PipelineBound
+  REQUEUE = FALSE
+  HOSTILE = FALSE
+  GUARD = FALSE
+INVARIANT WireBound
+CONSTRAINT Small
 CHECK_DEADLOCK FALSE
